@@ -550,19 +550,19 @@ pub(crate) mod verif_array {
     //@ob name=C15.merge.pair harness=k_c15_merge_pair props=C15,C01 tier=quick strength=bounded bound="operand shapes (pair); element values symbolic" fns=op::array::merge stubs=2 timeout=300 cutdrop=3 group=medium
     //@ desc="merge: concatenation in operand order, array operands spliced exactly one level (a nested array stays one element), every other value one element; length law"
     merge_harness!(k_c15_merge_pair, 1, 2);
-    //@ob name=C15.merge.pair_scalar harness=k_c15_merge_pair_scalar props=C15,C01 tier=quick strength=bounded bound="operand shapes (pair, scalar); element values symbolic" fns=op::array::merge stubs=2 timeout=300 cutdrop=3 group=medium
+    //@ob name=C15.merge.pair_scalar harness=k_c15_merge_pair_scalar props=C15,C01 tier=off strength=bounded bound="operand shapes (pair, scalar); element values symbolic" fns=op::array::merge stubs=2 timeout=300 cutdrop=3 group=medium
     //@ desc="merge: concatenation in operand order, array operands spliced exactly one level (a nested array stays one element), every other value one element; length law"
     merge_harness!(k_c15_merge_pair_scalar, 2, 2);
     //@ob name=C15.merge.nested harness=k_c15_merge_nested props=C15,C01 tier=quick strength=bounded bound="operand shapes (nested); element values symbolic" fns=op::array::merge stubs=2 timeout=300 cutdrop=3 group=medium
     //@ desc="merge: concatenation in operand order, array operands spliced exactly one level (a nested array stays one element), every other value one element; length law"
     merge_harness!(k_c15_merge_nested, 1, 3);
-    //@ob name=C15.merge.empty_pair harness=k_c15_merge_empty_pair props=C15,C01 tier=thorough strength=bounded bound="operand shapes (empty, pair); element values symbolic" fns=op::array::merge stubs=2 timeout=300 cutdrop=3 group=medium
+    //@ob name=C15.merge.empty_pair harness=k_c15_merge_empty_pair props=C15,C01 tier=off strength=bounded bound="operand shapes (empty, pair); element values symbolic" fns=op::array::merge stubs=2 timeout=300 cutdrop=3 group=medium
     //@ desc="merge: concatenation in operand order, array operands spliced exactly one level (a nested array stays one element), every other value one element; length law"
     merge_harness!(k_c15_merge_empty_pair, 2, 9);
-    //@ob name=C15.merge.scalar_pair_nested harness=k_c15_merge_scalar_pair_nested props=C15,C01 tier=thorough strength=bounded bound="operand shapes (scalar, pair, nested); element values symbolic" fns=op::array::merge stubs=2 timeout=300 cutdrop=3 group=medium
+    //@ob name=C15.merge.scalar_pair_nested harness=k_c15_merge_scalar_pair_nested props=C15,C01 tier=off strength=bounded bound="operand shapes (scalar, pair, nested); element values symbolic" fns=op::array::merge stubs=2 timeout=300 cutdrop=3 group=medium
     //@ desc="merge: concatenation in operand order, array operands spliced exactly one level (a nested array stays one element), every other value one element; length law"
     merge_harness!(k_c15_merge_scalar_pair_nested, 3, 56);
-    //@ob name=C15.merge.pair_pair harness=k_c15_merge_pair_pair props=C15,C01 tier=thorough strength=bounded bound="operand shapes (pair, pair); element values symbolic" fns=op::array::merge stubs=2 timeout=300 cutdrop=3 group=medium
+    //@ob name=C15.merge.pair_pair harness=k_c15_merge_pair_pair props=C15,C01 tier=off strength=bounded bound="operand shapes (pair, pair); element values symbolic" fns=op::array::merge stubs=2 timeout=300 cutdrop=3 group=medium
     //@ desc="merge: concatenation in operand order, array operands spliced exactly one level (a nested array stays one element), every other value one element; length law"
     merge_harness!(k_c15_merge_pair_pair, 2, 10);
 //@END-GENERATED-MERGE
